@@ -176,3 +176,33 @@ __CPROVER_assigns()
 __CPROVER_ensures(cv_exc_pending == 0 && __CPROVER_return_value == (cv_i32 *)&this_->_owner->f1 && gh_allocs == __CPROVER_old(gh_allocs))       /* the stored value itself */
 ;
 #endif
+
+/* ---- has_value() waiters (future<T>::awaitable_bool): like every waiter they are released by the RESOLUTION (the ready marker), never by the
+ * payload tag alone - set() stores the tag before the slot is swung (an async coroutine destroys its locals in between).  Forwarder units
+ * (sequential atomics): await_ready() answers exactly what future_common::ready() says; operator bool blocks (sync()) iff it is not ready. */
+#if defined(CV_HAS_ab_ready) || defined(CV_HAS_ab_bool)
+int gh_ab_ready_calls, gh_ab_sync_calls, gh_ab_order, gh_ab_sync_at; cv_i1 gh_ab_ready_res;
+#ifdef CV_HAS_ab_fc_ready_stub
+cv_i1 ab_fc_ready_stub(void *f) { gh_ab_ready_calls++; return gh_ab_ready_res; }
+#endif
+#ifdef CV_HAS_ab_sync_stub
+void ab_sync_stub(void *a) { gh_ab_sync_calls++; }
+#endif
+#endif
+#ifdef CV_HAS_ab_ready
+cv_i1 ab_ready(ABOOL *this_)
+__CPROVER_requires(cv_exc_pending == 0 && gh_ab_ready_calls == 0 && gh_ab_ready_res <= 1 && __CPROVER_is_fresh(this_, sizeof(*this_)) && __CPROVER_is_fresh(this_->base_co_awaiter._owner, sizeof(FUT)))
+__CPROVER_assigns(gh_ab_ready_calls)
+__CPROVER_ensures(cv_exc_pending == 0 && __CPROVER_return_value == gh_ab_ready_res)        /* whatever the payload tag says: not released before the resolution */
+;
+void h_ab_ready(void) { ABOOL *a; ab_ready(a); __CPROVER_assert(0, "SENTINEL reachable"); }
+#endif
+#ifdef CV_HAS_ab_bool
+cv_i1 ab_bool(ABOOL *this_)
+__CPROVER_requires(cv_exc_pending == 0 && gh_ab_ready_calls == 0 && gh_ab_sync_calls == 0 && gh_ab_ready_res <= 1 && __CPROVER_is_fresh(this_, sizeof(*this_)) && __CPROVER_is_fresh(this_->base_co_awaiter._owner, sizeof(FUT)))
+__CPROVER_assigns(gh_ab_ready_calls, gh_ab_sync_calls)
+__CPROVER_ensures(cv_exc_pending == 0 && gh_ab_sync_calls == (gh_ab_ready_res ? 0 : 1))      /* blocks until the resolution unless it already happened - the tag alone does not count */
+__CPROVER_ensures(__CPROVER_return_value == (this_->base_co_awaiter._owner->base_future_common._state != 0 ? 1 : 0))
+;
+void h_ab_bool(void) { ABOOL *a; ab_bool(a); __CPROVER_assert(0, "SENTINEL reachable"); }
+#endif
